@@ -32,6 +32,27 @@ pub fn run(args: &Args, rep: &mut Report) {
     };
     let n = args.scale(200, 3000);
     let mut rng = args.rng(61);
+    // histories at random levels of random compound / parallel trees, left and re-entered repeatedly
+    for d in 0..args.scale(30, 600) {
+        if crate::report::should_stop() {
+            break;
+        }
+        let dm = dms[d % dms.len()];
+        let (doc, paths) = crate::corpus::history_tree(&mut rng, dm, d);
+        let f = match crate::refsim::Flat::from_doc(&doc) {
+            Ok(f) => f,
+            Err(e) => {
+                w.rep.inconclusive(&format!("history_tree document rejected by the reference: {:?}", e));
+                continue;
+            }
+        };
+        for p in &paths {
+            let before = w.hstats.restores_differing_from_default;
+            if w.run_one(&doc, &f, p, false) && w.hstats.restores_differing_from_default > before {
+                w.rep.nontrivial_key(&distinct_key(&doc, p));
+            }
+        }
+    }
     for d in 0..n {
         if crate::report::should_stop() {
             break;
